@@ -50,6 +50,15 @@ pub proof fn lemma_into_seq_use<I: IntoIterator>(i: I, it: I::IntoIter)
     assert(iter_yields(i, into_seq(i)));
 }
 
+// what `x.into_iter().collect::<Vec<_>>()` yields for an argument with iter_ok(x)
+pub proof fn lemma_into_seq_use_witness<I: IntoIterator>(i: I)
+    requires iter_ok(i)
+    ensures forall|it: I::IntoIter| #[trigger] call_ensures(<I as IntoIterator>::into_iter, (i,), it)
+        ==> it.obeys_prophetic_iter_laws() && it.remaining() == into_seq(i)
+{
+    assert(iter_yields(i, into_seq(i)));
+}
+
 // an Iterator passed where an IntoIterator is expected yields its remaining items
 pub broadcast proof fn lemma_iterator_into_seq<I: Iterator>(it: I)
     requires it.obeys_prophetic_iter_laws()
